@@ -35,5 +35,5 @@ def partitions(tier, seed):
                                  table_classes=['Queue.Declare'],
                                  table_tags=buffers.TAGS, timeout=150, dec_max=(8, 7, 7))
     return buffers.parts_for('c08', tier, raw_max=16, m_extra=(2, 5, 8), hdr_extra=(2, 3, 4, 5),
-                             table_classes=TABLE_CLASSES_ALL, table_tags=buffers.TAGS, timeout=900,
+                             table_classes=TABLE_CLASSES_ALL, table_tags=buffers.TAGS, timeout=480,
                              dec_max=(10, 9, 9))
